@@ -193,4 +193,181 @@ theorem minv_exec {c : CCfg} {progs : List (List CReq)} {g : G} (hm : MInv progs
     | none => exact ih hm
     | some g' => exact ih (minv_step hm hs)
 
+
+/-! ### the acquisition log respects every thread's program order -/
+
+/-- the top-level request a thread has called but not yet acquired the lock for -/
+def headWait : List Frame → List CReq
+  | [⟨q, .start⟩] => [q]
+  | _ => []
+
+def logOf (t : Tid) (log : List (Tid × CReq)) : List CReq := (log.filter fun p => p.1 == t).map (·.2)
+
+/-- what thread `t` has logged, then what it is waiting to acquire for, then what it still has to
+    call, is its program -/
+def PInv (progs : List (List CReq)) (g : G) : Prop :=
+  ∀ t, logOf t g.acqLog ++ headWait (g.threads t).stack ++ (g.threads t).todo = progs.getD t []
+
+theorem headWait_two (f f' : Frame) (r : List Frame) : headWait (f :: f' :: r) = [] := by
+  obtain ⟨q, pc⟩ := f
+  cases pc <;> rfl
+
+theorem headWait_not_start (q : CReq) (pc : PC) (h : pc ≠ .start) : headWait [⟨q, pc⟩] = [] := by
+  cases pc <;> first | rfl | exact absurd rfl h
+
+theorem headWait_of_not_outside {s : List Frame} (h : ¬ Outside s) : headWait s = [] := by
+  cases s with
+  | nil => rfl
+  | cons f r =>
+    cases r with
+    | cons f' r' => exact headWait_two f f' r'
+    | nil =>
+      obtain ⟨q, pc⟩ := f
+      apply headWait_not_start
+      intro e; subst e
+      exact h (Or.inr (Or.inl ⟨q, rfl⟩))
+
+/-- a step of the holder's section never leaves a lone frame that is about to acquire -/
+theorem csStep_not_lone_start (c : CCfg) (tid : Tid) (x : CS) (hs : Shape x.stack x.ls.lock)
+    (hno : ¬ Outside x.stack) : headWait (csStep c tid x).stack = [] := by
+  obtain ⟨ls, stack, completed⟩ := x
+  cases stack with
+  | nil => exact absurd (Or.inl rfl) hno
+  | cons f rest =>
+    obtain ⟨q, pc⟩ := f
+    have hlone : ∀ pc', pc' ≠ .start → headWait (⟨q, pc'⟩ :: rest) = [] := by
+      intro pc' hne
+      cases rest with
+      | nil => exact headWait_not_start q pc' hne
+      | cons f' r' => exact headWait_two _ _ _
+    cases pc with
+    | start =>
+      cases rest with
+      | nil => exact absurd (Or.inr (Or.inl ⟨q, rfl⟩)) hno
+      | cons f' r' => exact headWait_two _ _ _
+    | acquired => simp only [csStep]; exact hlone _ (by simp)
+    | looked hit =>
+      simp only [csStep]
+      apply hlone
+      intro e
+      have := decide_inCS c ls q hit
+      rw [e] at this; simp [PC.inCS] at this
+    | found loc f u isabs =>
+      simp only [csStep]
+      split
+      · exact hlone _ (by simp)
+      · exact hlone _ (by simp)
+    | calling t u todo =>
+      cases todo with
+      | nil =>
+        simp only [csStep]
+        split
+        · exact hlone _ (by simp)
+        · exact hlone _ (by simp)
+      | cons ch todo => simp only [csStep]; exact headWait_two _ _ _
+    | called t u => simp only [csStep]; exact hlone _ (by simp)
+    | done res => simp only [csStep]; exact hlone _ (by simp)
+    | released res =>
+      cases rest with
+      | nil => exact absurd (Or.inr (Or.inr ⟨q, res, rfl⟩)) hno
+      | cons p rest' =>
+        obtain ⟨pq, ppc⟩ := p
+        have hp : isCalling ppc = true := hs.1 ⟨pq, ppc⟩ (by simp)
+        have hne : ppc ≠ .start := by intro e; subst e; simp [isCalling] at hp
+        cases res with
+        | ok t =>
+          simp only [csStep]
+          cases rest' with
+          | nil => exact headWait_not_start pq ppc hne
+          | cons f' r' => exact headWait_two _ _ _
+        | err e =>
+          simp only [csStep]
+          cases rest' with
+          | nil => exact headWait_not_start pq _ (by simp)
+          | cons f' r' => exact headWait_two _ _ _
+
+theorem logOf_append_other {t u : Tid} (log : List (Tid × CReq)) (q : CReq) (h : u ≠ t) :
+    logOf u (log ++ [(t, q)]) = logOf u log := by
+  have : ((t, q).1 == u) = false := by simpa using fun e : t = u => h e.symm
+  simp [logOf, List.filter_append, List.filter_cons, this]
+
+theorem logOf_append_self (t : Tid) (log : List (Tid × CReq)) (q : CReq) :
+    logOf t (log ++ [(t, q)]) = logOf t log ++ [q] := by
+  simp [logOf, List.filter_append, List.filter_cons]
+
+theorem pinv_init (ls : LState) (progs : List (List CReq)) : PInv progs (G.init ls progs) := by
+  intro t; simp [G.init, logOf, headWait]
+
+theorem pinv_step {c : CCfg} {progs : List (List CReq)} {g g' : G} {t : Tid} (hi : GInv g)
+    (hp : PInv progs g) (h : step c g t = some g') : PInv progs g' := by
+  cases step_kind h with
+  | call q more hs ht hg =>
+    subst hg
+    intro u
+    by_cases hu : u = t
+    · subst hu
+      have := hp u
+      rw [hs, ht] at this
+      simpa [setThread_same, headWait] using this
+    · simp only [setThread_ne _ _ hu]; exact hp u
+  | ret q res hs hg =>
+    subst hg
+    intro u
+    by_cases hu : u = t
+    · subst hu
+      have := hp u
+      rw [hs] at this
+      simpa [setThread_same, headWait] using this
+    · simp only [setThread_ne _ _ hu]; exact hp u
+  | acq q rest hs hcan hg =>
+    subst hg
+    intro u
+    cases rest with
+    | nil =>
+      have hst : (afterCs c g t).stack = [⟨q, .acquired⟩] := by simp [afterCs, hs, csStep]
+      by_cases hu : u = t
+      · subst hu
+        have := hp u
+        rw [hs] at this
+        simp only [List.isEmpty_nil, if_true, setThread_same, hst, logOf_append_self]
+        simpa [headWait] using this
+      · simp only [List.isEmpty_nil, if_true, setThread_ne _ _ hu, logOf_append_other _ _ hu]
+        exact hp u
+    | cons f r =>
+      have hst : (afterCs c g t).stack = ⟨q, .acquired⟩ :: f :: r := by simp [afterCs, hs, csStep]
+      by_cases hu : u = t
+      · subst hu
+        have := hp u
+        rw [hs, headWait_two] at this
+        simpa [setThread_same, hst, headWait_two] using this
+      · simp only [List.isEmpty_cons, Bool.false_eq_true, if_false, setThread_ne _ _ hu]
+        exact hp u
+  | cs hs hg =>
+    have hown : g.owner = some t := by
+      by_cases ho : g.owner = some t
+      · exact ho
+      · exact absurd (hi.outside ho) hs
+    have hsh := hi.shape t
+    rw [if_pos hown] at hsh
+    have hafter : headWait (afterCs c g t).stack = [] :=
+      csStep_not_lone_start c t ⟨g.ls, (g.threads t).stack, g.completed⟩ hsh hs
+    subst hg
+    intro u
+    by_cases hu : u = t
+    · subst hu
+      have := hp u
+      rw [headWait_of_not_outside hs] at this
+      simpa [setThread_same, hafter] using this
+    · simp only [setThread_ne _ _ hu]; exact hp u
+
+theorem pinv_exec {c : CCfg} {progs : List (List CReq)} {g : G} (hi : GInv g) (hp : PInv progs g)
+    (sched : List Tid) : PInv progs (exec c g sched) := by
+  induction sched generalizing g with
+  | nil => exact hp
+  | cons t ts ih =>
+    simp only [exec]
+    cases hs : step c g t with
+    | none => exact ih hi hp
+    | some g' => exact ih (ginv_step hi hs) (pinv_step hi hp hs)
+
 end Genshi.Conc
